@@ -363,7 +363,7 @@ func hasCodecCall(b *ssa.BasicBlock) bool {
 		if call, ok := ins.(*ssa.Call); ok {
 			if cal := call.Call.StaticCallee(); cal != nil {
 				switch cal.String() {
-				case "(*bufio.Reader).ReadByte", "io.ReadFull", "encoding/binary.Write":
+				case "(*bufio.Reader).ReadByte", "io.ReadFull", "encoding/binary.Write", "(*bytes.Buffer).WriteByte", "(*bytes.Buffer).Write":
 					return true
 				}
 			}
@@ -379,7 +379,7 @@ func (c *Ctx) akaEncodePaths(fn *ssa.Function) (header akaPath, body []akaPath, 
 		return header, nil, fmt.Errorf("expected one attribute loop, found %d", len(loops))
 	}
 	li := loops[0]
-	tokOf := func(ins ssa.Instruction) (akaTok, bool) {
+	tokOf1 := func(ins ssa.Instruction) (akaTok, bool) {
 		call := staticCallTo(valueOf(ins), "encoding/binary.Write")
 		if call == nil {
 			return akaTok{}, false
@@ -415,14 +415,103 @@ func (c *Ctx) akaEncodePaths(fn *ssa.Function) (header akaPath, body []akaPath, 
 		}
 		return akaTok{W: w, To: to, Pos: c.InstrPos(ins)}, true
 	}
+	fa := c.NewFA(fn)
+	bx := newBVCtx(c, fa)
+	// one octet written by value: which field octet (or constant) it is
+	octetTok := func(v ssa.Value, pos string) akaTok {
+		for {
+			if cv, ok := v.(*ssa.Convert); ok {
+				if call, isCall := cv.X.(*ssa.Call); isCall && call.Call.StaticCallee() != nil {
+					v = cv.X
+					continue
+				}
+			}
+			break
+		}
+		if call, ok := v.(*ssa.Call); ok {
+			if cal := call.Call.StaticCallee(); cal != nil && c.InModule(cal) && len(call.Call.Args) == 1 {
+				if fk, ok := fieldKeyOfLoad(call.Call.Args[0]); ok {
+					return akaTok{W: "1", To: "field:" + fk, Pos: pos}
+				}
+			}
+		}
+		bv := bx.Eval(v)
+		if kv, ok := bvConst(bv); ok {
+			return akaTok{W: "1", To: fmt.Sprintf("const:%d", kv&0xff), Pos: pos}
+		}
+		if len(bv) >= 8 && bv[0].K == bRef {
+			l := bx.leaves[bv[0].Leaf]
+			same := true
+			for i := 0; i < 8; i++ {
+				if bv[i].K != bRef || bv[i].Leaf != bv[0].Leaf || bv[i].Idx != bv[0].Idx+i {
+					same = false
+				}
+			}
+			if same && l.Kind == "field" && bv[0].Idx%8 == 0 {
+				if l.Width == 8 {
+					return akaTok{W: "1", To: "field:" + l.Key, Pos: pos}
+				}
+				return akaTok{W: "1", To: fmt.Sprintf("field:%s#%d", l.Key, bv[0].Idx/8), Pos: pos}
+			}
+		}
+		return akaTok{W: "1", To: "?", Pos: pos}
+	}
+	toksOf := func(ins ssa.Instruction) []akaTok {
+		if t, ok := tokOf1(ins); ok {
+			return []akaTok{t}
+		}
+		call, ok := ins.(*ssa.Call)
+		if !ok {
+			return nil
+		}
+		cal := call.Call.StaticCallee()
+		if cal == nil {
+			return nil
+		}
+		switch cal.String() {
+		case "(*bytes.Buffer).WriteByte":
+			return []akaTok{octetTok(call.Call.Args[1], c.InstrPos(ins))}
+		case "(*bytes.Buffer).Write":
+			// a slice literal: the octets stored into its backing array, in index order
+			sl, ok := call.Call.Args[1].(*ssa.Slice)
+			if !ok {
+				return []akaTok{{W: "v", To: "?", Pos: c.InstrPos(ins)}}
+			}
+			al, ok := sl.X.(*ssa.Alloc)
+			if !ok || !isByteArrayPtr(al.Type()) {
+				return []akaTok{{W: "v", To: "?", Pos: c.InstrPos(ins)}}
+			}
+			n, _ := arrayLen(al.Type())
+			out := make([]akaTok, n)
+			for i := range out {
+				out[i] = akaTok{W: "1", To: "const:0", Pos: c.InstrPos(ins)}
+			}
+			for _, ref := range *al.Referrers() {
+				ia, ok := ref.(*ssa.IndexAddr)
+				if !ok {
+					continue
+				}
+				k, ok := ia.Index.(*ssa.Const)
+				if !ok {
+					return []akaTok{{W: "v", To: "?", Pos: c.InstrPos(ins)}}
+				}
+				idx, _ := constInt64(k.Value)
+				for _, r2 := range *ia.Referrers() {
+					if st, ok := r2.(*ssa.Store); ok && idx >= 0 && idx < n {
+						out[idx] = octetTok(st.Val, c.InstrPos(ins))
+					}
+				}
+			}
+			return out
+		}
+		return nil
+	}
 	cur := fn.Blocks[0]
 	seen := map[*ssa.BasicBlock]bool{}
 	for cur != li.header && !seen[cur] {
 		seen[cur] = true
 		for _, ins := range cur.Instrs {
-			if t, ok := tokOf(ins); ok {
-				header.Toks = append(header.Toks, t)
-			}
+			header.Toks = append(header.Toks, toksOf(ins)...)
 		}
 		next := c.successSucc(cur, nil)
 		if next == nil {
@@ -431,6 +520,7 @@ func (c *Ctx) akaEncodePaths(fn *ssa.Function) (header akaPath, body []akaPath, 
 		cur = next
 	}
 	header.Label = "header"
+	header.Toks = mergeOctetToks(header.Toks)
 	// loop body: paths from the header's body successor back to the header
 	var walk func(b *ssa.BasicBlock, toks []akaTok, label []string, visited map[*ssa.BasicBlock]bool, depth int)
 	walk = func(b *ssa.BasicBlock, toks []akaTok, label []string, visited map[*ssa.BasicBlock]bool, depth int) {
@@ -438,7 +528,7 @@ func (c *Ctx) akaEncodePaths(fn *ssa.Function) (header akaPath, body []akaPath, 
 			return
 		}
 		if b == li.header && depth > 0 {
-			body = append(body, akaPath{Label: strings.Join(label, ","), Toks: toks})
+			body = append(body, akaPath{Label: strings.Join(label, ","), Toks: mergeOctetToks(toks)})
 			return
 		}
 		if visited[b] || !li.body[b] {
@@ -447,8 +537,8 @@ func (c *Ctx) akaEncodePaths(fn *ssa.Function) (header akaPath, body []akaPath, 
 		visited = copyVisited(visited)
 		visited[b] = true
 		for _, ins := range b.Instrs {
-			if t, ok := tokOf(ins); ok {
-				toks = append(append([]akaTok(nil), toks...), t)
+			if ts := toksOf(ins); len(ts) > 0 {
+				toks = append(append([]akaTok(nil), toks...), ts...)
 			}
 		}
 		last := b.Instrs[len(b.Instrs)-1]
@@ -939,4 +1029,33 @@ func derivesFromLengthField(v ssa.Value) bool {
 	}
 	_, fld, ok := fieldLoad(v)
 	return ok && fld == "length"
+}
+
+// mergeOctetToks joins the octets of one wider field written most significant first
+// ([1→field:F#1][1→field:F#0]) into the token a binary.Write of the field gives ([2→field:F]).
+func mergeOctetToks(ts []akaTok) []akaTok {
+	var out []akaTok
+	for i := 0; i < len(ts); i++ {
+		t := ts[i]
+		h := strings.LastIndex(t.To, "#")
+		if t.W != "1" || !strings.HasPrefix(t.To, "field:") || h < 0 {
+			out = append(out, t)
+			continue
+		}
+		base := t.To[:h]
+		var hi int
+		fmt.Sscan(t.To[h+1:], &hi)
+		j, want := i+1, hi-1
+		for j < len(ts) && want >= 0 && ts[j].W == "1" && ts[j].To == fmt.Sprintf("%s#%d", base, want) {
+			j++
+			want--
+		}
+		if want < 0 && j-i == hi+1 {
+			out = append(out, akaTok{W: fmt.Sprint(hi + 1), To: base, Pos: t.Pos})
+			i = j - 1
+			continue
+		}
+		out = append(out, t)
+	}
+	return out
 }
